@@ -411,6 +411,85 @@ static void do_compact(void) {
   wr32(from);
 }
 
+// ------------------------------------------------------------------ hashers
+//
+// 'H': algo:u8 fill:u8 seed:u32 flags:u32 npieces:u32, then per piece
+//      align:u8 len:u32 bytes. The object lives in its own exact-size
+//      allocation, pre-filled as asked and then initialized with the given
+//      flags. Every piece is copied into its own exact-size allocation at the
+//      given misalignment, so that an over-read is an ASan report.
+// response: status string of initialize; if ok: npieces + 1 values of 32 bytes
+//      (the value returned by each update call, then the final checksum).
+static void wr_val64(uint64_t lo) {
+  wr64(lo); wr64(0); wr64(0); wr64(0);
+}
+static void wr_val256(wuffs_base__bitvec256 v) {
+  wr64(v.elements_u64[0]); wr64(v.elements_u64[1]); wr64(v.elements_u64[2]); wr64(v.elements_u64[3]);
+}
+
+static void do_hash(void) {
+  uint8_t algo = rd8();
+  uint8_t fill = rd8();
+  uint32_t seed = rd32();
+  uint32_t flags = rd32();
+  uint32_t npieces = rd32();
+  size_t size = 0;
+  switch (algo) {
+    case 0: size = sizeof__wuffs_crc32__ieee_hasher(); break;
+    case 1: size = sizeof__wuffs_adler32__hasher(); break;
+    case 2: size = sizeof__wuffs_crc64__ecma_hasher(); break;
+    case 3: size = sizeof__wuffs_sha256__hasher(); break;
+    case 4: size = sizeof__wuffs_xxhash32__hasher(); break;
+    case 5: size = sizeof__wuffs_xxhash64__hasher(); break;
+    default: die("unknown hash algorithm");
+  }
+  uint8_t* h = (uint8_t*)malloc(size);
+  if (!h) die("malloc");
+  fill_mem(h, size, fill, seed);
+  wuffs_base__status st;
+  switch (algo) {
+    case 0: st = wuffs_crc32__ieee_hasher__initialize((wuffs_crc32__ieee_hasher*)h, size, WUFFS_VERSION, flags); break;
+    case 1: st = wuffs_adler32__hasher__initialize((wuffs_adler32__hasher*)h, size, WUFFS_VERSION, flags); break;
+    case 2: st = wuffs_crc64__ecma_hasher__initialize((wuffs_crc64__ecma_hasher*)h, size, WUFFS_VERSION, flags); break;
+    case 3: st = wuffs_sha256__hasher__initialize((wuffs_sha256__hasher*)h, size, WUFFS_VERSION, flags); break;
+    case 4: st = wuffs_xxhash32__hasher__initialize((wuffs_xxhash32__hasher*)h, size, WUFFS_VERSION, flags); break;
+    default: st = wuffs_xxhash64__hasher__initialize((wuffs_xxhash64__hasher*)h, size, WUFFS_VERSION, flags); break;
+  }
+  wr8('H' | 0x20);
+  wrstr(st.repr ? st.repr : "");
+  for (uint32_t i = 0; i < npieces; i++) {
+    uint8_t align = rd8();
+    uint32_t len = rd32();
+    // exact-size allocation: the slice ends where the allocation ends, so
+    // that a read beyond the piece is an ASan report
+    uint8_t* mem = (uint8_t*)malloc((size_t)align + (size_t)len + (len == 0 ? 1 : 0));
+    if (!mem) die("malloc");
+    rd(mem + align, len);
+    if (st.repr) { free(mem); continue; }
+    wuffs_base__slice_u8 x = wuffs_base__make_slice_u8(mem + align, len);
+    switch (algo) {
+      case 0: wr_val64(wuffs_crc32__ieee_hasher__update_u32((wuffs_crc32__ieee_hasher*)h, x)); break;
+      case 1: wr_val64(wuffs_adler32__hasher__update_u32((wuffs_adler32__hasher*)h, x)); break;
+      case 2: wr_val64(wuffs_crc64__ecma_hasher__update_u64((wuffs_crc64__ecma_hasher*)h, x)); break;
+      case 3: wr_val256(wuffs_sha256__hasher__update_bitvec256((wuffs_sha256__hasher*)h, x)); break;
+      case 4: wr_val64(wuffs_xxhash32__hasher__update_u32((wuffs_xxhash32__hasher*)h, x)); break;
+      default: wr_val64(wuffs_xxhash64__hasher__update_u64((wuffs_xxhash64__hasher*)h, x)); break;
+    }
+    free(mem);
+  }
+  if (!st.repr) {
+    switch (algo) {
+      case 0: wr_val64(wuffs_crc32__ieee_hasher__checksum_u32((wuffs_crc32__ieee_hasher*)h)); break;
+      case 1: wr_val64(wuffs_adler32__hasher__checksum_u32((wuffs_adler32__hasher*)h)); break;
+      case 2: wr_val64(wuffs_crc64__ecma_hasher__checksum_u64((wuffs_crc64__ecma_hasher*)h)); break;
+      case 3: wr_val256(wuffs_sha256__hasher__checksum_bitvec256((wuffs_sha256__hasher*)h)); break;
+      case 4: wr_val64(wuffs_xxhash32__hasher__checksum_u32((wuffs_xxhash32__hasher*)h)); break;
+      default: wr_val64(wuffs_xxhash64__hasher__checksum_u64((wuffs_xxhash64__hasher*)h)); break;
+    }
+  }
+  free(h);
+}
+
 int main(void) {
   setvbuf(stdout, NULL, _IOFBF, 1 << 16);
   for (;;) {
@@ -422,6 +501,7 @@ int main(void) {
       case 'W': do_query(); break;
       case 'D': do_drain(); break;
       case 'K': do_compact(); break;
+      case 'H': do_hash(); break;
       case 'P':  // ping: identifies the build
         wr8('P' | 0x20);
         wr32((uint32_t)NUM_XFORMS);
